@@ -73,7 +73,7 @@ def _pack(spec, parts, npartitions, p, tag):
     for n in lens:
         out.append(whole.iloc[a:a + n])
         a += n
-    return out, packed.npartitions
+    return out, packed.npartitions, ddf
 
 
 def run_case(case):
@@ -93,7 +93,8 @@ def run_case(case):
     try:
         with seams.installed(sim, None):
             try:
-                parts, np_ = _pack(spec, case["parts"], case["npartitions"], case["p"], "a")
+                parts, np_, ddf0 = _pack(spec, case["parts"], case["npartitions"], case["p"],
+                                         "a")
             except HarnessError:
                 raise
             except Exception as e:  # noqa: BLE001 - the property claims nothing when it raises
@@ -111,9 +112,8 @@ def run_case(case):
                 if bad is not None and bad[0] == "partition-count" and sig["returned_fewer"]:
                     # is it Dask's set_index stage alone that delivers fewer partitions?
                     try:
-                        gdf0 = gen.build_frame(spec)
-                        h = e1.make_ddf(gdf0, case["parts"], "c")._with_hilbert_distance_column(
-                            case["p"])
+                        # same collection object => same expression names => same divisions
+                        h = ddf0._with_hilbert_distance_column(case["p"])
                         si = h.set_index("hilbert_distance", npartitions=case["npartitions"],
                                          shuffle_method="tasks")
                         m = len(si.map_partitions(len).compute())
@@ -127,7 +127,8 @@ def run_case(case):
                            "partitions actually computed")
                 if bad is None:
                     try:
-                        parts2, _ = _pack(spec, case["parts2"], case["npartitions"], case["p"], "b")
+                        parts2, _, _ = _pack(spec, case["parts2"], case["npartitions"],
+                                             case["p"], "b")
                     except HarnessError:
                         raise
                     except Exception:  # noqa: BLE001
